@@ -83,7 +83,11 @@ Section Py.
       | [] => ret acc
       | e :: r =>
           bind (match e with
-                | EStarred x => bind (ev x) (fun v => bind (to_list f v) (fun items => set_add_all items acc))
+                | EStarred x =>
+                    (* set.update(iterable): each item is hashed as soon as the iterator yields it *)
+                    bind (ev x) (fun v => bind (open_cursor v) (fun c =>
+                      bind (for_each f c (fun item => if hashable item then ret [item] else raise ExTypeError) [])
+                           (fun items => set_add_all items acc)))
                 | _ => bind (ev e) (fun v => set_put v acc)
                 end) (fun acc' => py_set_more r acc')
       end.
